@@ -12,7 +12,14 @@ use crate::searchcase::{gen_edge_od, gen_vertex_od, had_reopen};
 use crate::world::{gen_world, rate_value, AccessCfg, World, WorldParams};
 use routee_compass_core::algorithm::search::edge_traversal::EdgeTraversal;
 use routee_compass_core::model::unit::as_f64::AsF64;
-use serde_json::json;
+use crate::appgen::{build_app, AppSpec, OutputPlugin};
+use crate::hooks::catch;
+use crate::oracle::units as U;
+use routee_compass_core::model::cost::vehicle::vehicle_cost_rate::VehicleCostRate;
+use routee_compass_core::model::network::edge_id::EdgeId;
+use routee_compass_core::model::traversal::state::state_variable::StateVar;
+use routee_compass_core::model::unit::Cost;
+use serde_json::{json, Value};
 use crate::worldjson::QueryCase;
 use routee_compass_core::algorithm::search::search_instance::SearchInstance;
 
@@ -224,15 +231,193 @@ fn case(tier: Tier, rng: &mut Rng, rep: &mut Report) {
     }
 }
 
+
+/// application-level slice: the same accumulation oracle on the response of CompassApp::run (json route + traversal
+/// summary), with the units and initial values of the state features overridden per query (`state_features`)
+fn app_case(case_no: usize, rng: &mut Rng, rep: &mut Report) {
+    let mut p = WorldParams::default();
+    p.net.min_v = 5;
+    p.net.max_v = 24;
+    p.net.metric = true;
+    p.allow_turn_delay = true;
+    p.mixed_units = false;
+    p.random_initials = false;
+    p.surcharges = false;
+    let mut world = gen_world(rng, &p);
+    for (_, r) in world.cost.vehicle_rates.iter_mut() {
+        if let VehicleCostRate::Combined(_) = r {
+            *r = VehicleCostRate::Factor { factor: 2.5 };
+        }
+    }
+    let has_time = world.uses_time();
+    let has_delay = matches!(world.access, AccessCfg::TurnDelay { .. });
+    // admissible searches only: re-opened vertices are a listed finding of the core-level monitor
+    let alg = rng.pick(&[Alg::Dijkstra, Alg::AStar(None), Alg::AStar(Some(1.0)), Alg::AStar(Some(0.0))]).clone();
+    let mut spec = AppSpec::basic(world.clone(), alg.clone());
+    spec.parallelism = rng.urange(1, 4);
+    spec.output_plugins = vec![OutputPlugin::Summary, OutputPlugin::Traversal { route: Some("json".into()), tree: None }];
+    let built = match catch(|| build_app(&spec, "c03")) {
+        Ok(Ok(b)) => b,
+        Ok(Err(e)) => {
+            rep.violate("C03|app|CompassApp::try_from|load-error", format!("well-formed configuration refused: {}", e.lines().next().unwrap_or("")), || json!({"toml": e}));
+            return;
+        }
+        Err(pm) => {
+            rep.violate(&format!("C03|app|CompassApp::try_from|{}", crate::hooks::panic_sig(&pm)), pm, || json!({}));
+            return;
+        }
+    };
+    let net = world.net.clone();
+    let mut queries = vec![];
+    let mut effs: Vec<(World, usize, usize, &'static str)> = vec![];
+    for i in 0..6 {
+        let (o, d) = match gen_vertex_od(rng, &net, true) {
+            Od::Vertex(o, Some(d)) if o != d => (o, d),
+            _ => continue,
+        };
+        let mut q = json!({"qid": format!("s{case_no}q{i}"), "origin_vertex": o, "destination_vertex": d});
+        let mut eff = world.clone();
+        let mode = match rng.below(4) {
+            0 => "no-override",
+            1 => "override-distance",
+            2 => "override-time",
+            _ => "override-both",
+        };
+        let mut sf = serde_json::Map::new();
+        if mode == "override-distance" || mode == "override-both" {
+            eff.state.dist_unit = *rng.pick(&U::DISTANCE_UNITS);
+            eff.state.dist_init = if rng.chance(0.5) { 0.0 } else { rng.frange(0.0, 80.0) };
+            sf.insert("distance".into(), json!({"distance_unit": eff.state.dist_unit.to_string(), "initial": eff.state.dist_init}));
+        }
+        if has_time && (mode == "override-time" || mode == "override-both") {
+            eff.state.time_unit = *rng.pick(&U::TIME_UNITS);
+            eff.state.time_init = if rng.chance(0.5) { 0.0 } else { rng.frange(0.0, 80.0) };
+            sf.insert("time".into(), json!({"time_unit": eff.state.time_unit.to_string(), "initial": eff.state.time_init}));
+        }
+        if !sf.is_empty() {
+            q["state_features"] = Value::Object(sf);
+        }
+        queries.push(q);
+        effs.push((eff, o, d, mode));
+    }
+    if queries.is_empty() {
+        return;
+    }
+    let responses = match catch(|| built.app.run(queries.clone(), None)) {
+        Ok(Ok(v)) => v,
+        Ok(Err(e)) => {
+            rep.violate("C03|app|run-returns-err", format!("run() failed: {e}"), || json!({"toml": built.toml, "batch": queries}));
+            return;
+        }
+        Err(pm) => {
+            rep.violate(&format!("C03|app|{}", crate::hooks::panic_sig(&pm)), pm, || json!({"toml": built.toml, "batch": queries}));
+            return;
+        }
+    };
+    for (q, (eff, o, d, mode)) in queries.iter().zip(&effs) {
+        rep.eval();
+        let qid = q["qid"].as_str().unwrap_or("");
+        let r = match responses.iter().find(|r| r["request"]["qid"].as_str() == Some(qid)) {
+            Some(r) => r,
+            None => continue,
+        };
+        let replay = || json!({"toml": built.toml, "query": q, "world": world.to_json(), "response": r});
+        if let Some(e) = r.get("error") {
+            let text = e.to_string();
+            if text.contains("no path") {
+                rep.count("app_unreachable_pairs", 1);
+            } else if text.contains("unknown state variable name") {
+                // the override only applies to features declared by the traversal / access model; a feature that comes
+                // from the [state] section (distance traversal) is refused by name. not an accumulation matter
+                rep.count("app_overrides_refused_(feature_not_declared_by_the_model)", 1);
+            } else {
+                rep.count("app_queries_refused_for_other_reasons_(C12)", 1);
+            }
+            let _ = &replay;
+            continue;
+        }
+        // slots of the state vector by feature name, as the response itself declares them
+        let slot = |name: &str| r["route"]["state_model"][name]["index"].as_u64().map(|v| v as usize);
+        let (sd, st) = (slot("distance"), slot("time"));
+        if sd.is_none() || (has_time && st.is_none()) {
+            rep.violate(&format!("C03|app|{mode}|state-model-not-reported"), format!("route.state_model lacks the features: {}", r["route"]["state_model"]), replay);
+            continue;
+        }
+        // S6 the declared units / initial values are the ones asked for
+        let declared_du = r["route"]["state_model"]["distance"]["distance_unit"].as_str().unwrap_or("").to_string();
+        let declared_tu = r["route"]["state_model"]["time"]["time_unit"].as_str().unwrap_or("").to_string();
+        if declared_du != eff.state.dist_unit.to_string() || (has_time && declared_tu != eff.state.time_unit.to_string()) {
+            rep.violate(&format!("C03|app|{mode}|state-unit-not-honoured"), format!("S6 the response declares distance in {declared_du:?} / time in {declared_tu:?}, the query asked for {} / {}", eff.state.dist_unit, eff.state.time_unit), replay);
+            continue;
+        }
+        let path = match r["route"]["path"].as_array() {
+            Some(a) if !a.is_empty() => a,
+            _ => continue,
+        };
+        let mut route: Vec<EdgeTraversal> = vec![];
+        let mut ok = true;
+        for x in path {
+            let rs: Vec<f64> = x["result_state"].as_array().map(|a| a.iter().map(|v| v.as_f64().unwrap_or(f64::NAN)).collect()).unwrap_or_default();
+            let mut ordered = vec![];
+            match sd.and_then(|i| rs.get(i)) {
+                Some(v) => ordered.push(StateVar(*v)),
+                None => ok = false,
+            }
+            if has_time {
+                match st.and_then(|i| rs.get(i)) {
+                    Some(v) => ordered.push(StateVar(*v)),
+                    None => ok = false,
+                }
+            }
+            route.push(EdgeTraversal { edge_id: EdgeId(x["edge_id"].as_u64().unwrap_or(u64::MAX) as usize), access_cost: Cost::new(x["access_cost"].as_f64().unwrap_or(f64::NAN)), traversal_cost: Cost::new(x["traversal_cost"].as_f64().unwrap_or(f64::NAN)), result_state: ordered });
+        }
+        if !ok {
+            rep.violate(&format!("C03|app|{mode}|state-vector-shape"), "a route edge's result_state lacks a declared slot".into(), replay);
+            continue;
+        }
+        let ids = route_ids(&route);
+        if net.edges.get(ids[0]).map(|e| e.src) != Some(*o) || net.edges.get(*ids.last().unwrap()).map(|e| e.dst) != Some(*d) {
+            rep.count("app_routes_with_unexpected_shape_(C01)", 1);
+            continue;
+        }
+        match check_accumulation(eff, &route, false, Od::Vertex(*o, Some(*d))) {
+            Err(a) => {
+                rep.violate(&format!("C03|app|{mode}|{}", a.clause), format!("route {ids:?}: {}", a.detail), replay);
+                continue;
+            }
+            Ok((turns, real_turns)) => {
+                rep.count("app_turns_with_delay_checked", turns as u64);
+                // S4 the summary is the state after the last edge
+                let last = route.last().map(|e| e.result_state.iter().map(|s| s.0).collect::<Vec<_>>()).unwrap_or_default();
+                let sum_d = r["route"]["traversal_summary"]["distance"].as_f64().unwrap_or(f64::NAN);
+                let sum_t = r["route"]["traversal_summary"]["time"].as_f64().unwrap_or(f64::NAN);
+                if !rel_close(sum_d, last[0], 1e-12, 1e-12) || (has_time && !rel_close(sum_t, last[1], 1e-12, 1e-12)) {
+                    rep.violate(&format!("C03|app|{mode}|S4-summary-differs-from-last-state"), format!("S4 traversal_summary distance {sum_d} time {sum_t}, state after the last edge {last:?}"), replay);
+                    continue;
+                }
+                rep.count("app_routes_checked", 1);
+                rep.seen("app_state_feature_modes", format!("{mode}|{}", if has_delay { "turn_delay" } else { "no_access" }));
+                if ids.len() >= 3 && (!has_delay || real_turns >= 1) {
+                    rep.nontrivial(hash_str(&format!("app|{}|{o}|{d}|{ids:?}|{}|{}|{}|{}", net.ne(), eff.state.dist_unit, eff.state.dist_init, eff.state.time_unit, eff.state.time_init)));
+                    if *mode != "no-override" {
+                        rep.sample(|| json!({"level": "application", "mode": mode, "query": q, "route": ids, "traversal_summary": r["route"]["traversal_summary"], "turn_delays": has_delay}));
+                    }
+                }
+            }
+        }
+    }
+}
+
 pub fn run(tier: Tier, seed: u64) -> MonOut {
     let n = tier.n(16_000, 500_000);
-    let mut rep = par_cases(seed, n, |_i, rng, rep| case(tier, rng, rep));
+    // one case in 40 goes through the application (response rendering, per-query state_features)
+    let mut rep = par_cases(seed, n, |i, rng, rep| if i % 40 == 39 { app_case(i, rng, rep) } else { case(tier, rng, rep) });
     let mut d = Report::new();
     super::c01::run_directed("C03", &mut d, check_query);
     rep.merge(d);
     MonOut {
         report: rep,
-        rule: "generated networks (up to 90 vertices for long routes) with distance or speed-table traversal in every unit combination, state features in the model's units or (50 %) in other units, random non-zero initial distance/time, turn-delay access model with random heading tables (departure heading optional) and delay tables in any time unit, weighted/rated costs with per-edge surcharges; 8 queries per network over all algorithms (incl. both k-shortest-path algorithms, every returned alternative), vertex/edge orientation, forward/reverse. every route edge gets S1 (distance sum), S2 (time sum incl. each turn's delay), S3 (edge cost = weighted rated state change), S5 (monotone), S6 (initial values). non-trivial = >= 3 edges and, with turn delays, >= 1 turn that is not 'no_turn'; distinct by (network, algorithm, od, direction, route, unit mode)".into(),
+        rule: "generated networks (up to 90 vertices for long routes) with distance or speed-table traversal in every unit combination, state features in the model's units or (50 %) in other units, random non-zero initial distance/time, turn-delay access model with random heading tables (departure heading optional) and delay tables in any time unit, weighted/rated costs with per-edge surcharges; 8 queries per network over all algorithms (incl. both k-shortest-path algorithms, every returned alternative), vertex/edge orientation, forward/reverse. every route edge gets S1 (distance sum), S2 (time sum incl. each turn's delay), S3 (edge cost = weighted rated state change), S5 (monotone), S6 (initial values). application-level slice (1 case in 40): CompassApp::run with the json route format; per query the unit and initial value of distance and/or time are overridden through `state_features`; the same S1-S6 on the response's per-edge result_state (slots taken from the response's state_model), S4 traversal_summary = state after the last edge, and the declared units = the units asked for. non-trivial = >= 3 edges and, with turn delays, >= 1 turn that is not 'no_turn'; distinct by (network, algorithm, od, direction, route, unit mode)".into(),
         assumptions: vec![
             "physics oracle: SI unit table, time = length / table speed, delay = table[turn class] in its own unit; tolerance 0.1 % (the figure C09 grants to the repo's conversion constants)".into(),
             "edge cost compared at 1e-9 against the generator's weights/rates applied to the observed state change".into(),
